@@ -20,7 +20,8 @@ RULE = ("perr: random scripts of parser/scanner/sub-parser error events (cluster
         "parser.error; adv: random scripts of next/advance(stmtStart|declStart|exprEnd) with bursts of repeated calls over the real scanner's tokens "
         "of mutated corpus files; fuzz: token-level mutants (delete/duplicate/swap/replace/insert XGo tokens, truncate, splice, byte flips, NUL, "
         "invalid UTF-8, repeated regions) of grammar-directed XGo expression/statement fragments (lambdas, mixed-element literals, comprehensions, "
-        "errwrap, range exprs, env, domain text, command calls, tuples, labels/branches everywhere; unchanged, wrapped as files, and mutated) and of the .go/.xgo/.gop/.gox/.spx/.gsh/.gmx files of the tree x 21 entry/mode combinations, every prefix of "
+        "errwrap, range exprs, env, domain text, command calls, tuples, labels/branches everywhere, interpolated strings from a $-syntax grammar; unchanged, "
+        "wrapped as files, and mutated), the full product of 20 contexts x 14 operand shapes x 6 range forms x 12 suffixes (XGo conjunctions), and of the .go/.xgo/.gop/.gox/.spx/.gsh/.gmx files of the tree x 21 entry/mode combinations, every prefix of "
         "small files, fixed seeds, deep nesting; non-trivial = distinct script/case line with >= 2 events or > 3 tokens")
 
 
